@@ -16,6 +16,7 @@ instance — the "member files" protocol of the property.  Without it the
 implementation DOES panic: see `stream_before_new_brotli_file_panics`.
 -/
 import BV.Lemmas.ConcatStream
+import BV.Lemmas.ConcatSerial
 
 namespace BV.Props.C16
 open BV.Concat BV.Concat.Outcome
@@ -208,6 +209,69 @@ theorem finish_progress (s : State) (cap : Nat) (hI : Inv s) (r : Ret) (hr : fin
   · have h1 := h.total
     have h2 := h.nmo c.1
     omega
+
+/-! ## every reachable state, every call sequence -/
+
+/-- every call of the sequence returns (no panic), every reached state satisfies the invariant,
+no call moves a cursor past the buffer it was given -/
+def SafeRun : State → List Op → Prop
+  | s, [] => Inv s
+  | s, op :: rest => Inv s ∧ ∃ r, applyOp s op = ok r ∧ r.consumed ≤ op.inLen ∧ r.produced.length ≤ op.room ∧
+      SafeRun r.st rest
+
+theorem safeRun_of_inv : ∀ (ops : List Op) (s : State), Inv s → (Started s ∨ announcedFirst ops = true) →
+    SafeRun s ops := by
+  intro ops
+  induction ops with
+  | nil => intro s hI _; exact hI
+  | cons op rest ih =>
+    intro s hI hS
+    refine ⟨hI, ?_⟩
+    cases op with
+    | N =>
+      obtain ⟨hI', hS'⟩ := inv_new_brotli_file s hI
+      exact ⟨_, rfl, Nat.le_refl _, Nat.le_refl _, ih _ hI' (Or.inl hS')⟩
+    | S inp cap =>
+      have hSt : Started s := by
+        rcases hS with h | h
+        · exact h
+        · simp [announcedFirst] at h
+      obtain ⟨r, hr, hpost⟩ := sat_iff.mp (stream_sat s inp cap hI hSt)
+      exact ⟨r, hr, hpost.consumed_le, hpost.produced_le, ih _ hpost.inv (Or.inl hpost.started)⟩
+    | F cap =>
+      obtain ⟨r, hr, hpost⟩ := sat_iff.mp (finish_sat s cap hI)
+      refine ⟨r, hr, by rw [hpost.consumed]; exact Nat.zero_le _, hpost.bound, ih _ hpost.inv ?_⟩
+      rcases hS with h | h
+      · exact Or.inl (fun e => by rw [hpost.pending]; rw [hpost.ws] at e; exact h e)
+      · exact Or.inr (by simpa [announcedFirst] using h)
+    | Z =>
+      refine ⟨⟨s, SUCCESS, 0, []⟩, by simp [applyOp, saveRestore_id s], Nat.le_refl _, Nat.le_refl _, ih _ hI ?_⟩
+      rcases hS with h | h
+      · exact Or.inl h
+      · exact Or.inr (by simpa [announcedFirst] using h)
+
+/-- `reachable_no_panic`.  For EVERY list of protocol operations — `N` (new_brotli_file),
+`S inp cap` (stream on arbitrary bytes with arbitrary room), `F cap` (finish), `Z` (save to the
+120-byte buffer and restore) — starting from `new()` with `new_brotli_file` before the first
+`stream` (`announcedFirst`, decidable), or from `new_with_window_size w` for any valid `w` with no
+condition at all: every call returns, the invariant holds in every state reached, and no call
+advances a cursor beyond the buffer it was given. -/
+theorem reachable_no_panic (ops : List Op) :
+    (announcedFirst ops = true → SafeRun State.new ops) ∧
+    (∀ w, 10 ≤ w → w ≤ 30 → ∃ s, State.newWithWindowSize w = ok s ∧ SafeRun s ops) := by
+  refine ⟨fun h => safeRun_of_inv ops State.new inv_new.1 (Or.inr h), fun w h10 h30 => ?_⟩
+  obtain ⟨s, hs, hI, hS, _⟩ := inv_new_with_window_size w h10 (by omega)
+  exact ⟨s, hs, safeRun_of_inv ops s hI (Or.inl hS)⟩
+
+/-- a concrete long sequence meets the protocol condition (save/restore and a `finish` before the
+first member, two members in small slices with zero-room calls, a refused third member,
+`finish` in one-byte steps) … -/
+example : announcedFirst [.Z, .F 0, .N, .Z, .S [0x8b, 0x01] 0, .S [0x80, 0x03, 0x61] 1, .S [0x62, 0x63, 0x03] 100,
+    .Z, .N, .S [0x3b] 0, .S [0x00, 0x00] 1, .Z, .S [0x00, 0x03] 1, .S [] 5, .N, .S [0xff, 0xff, 0xff, 0xff] 9,
+    .F 0, .F 1, .Z, .F 1, .F 7] = true := by decide
+
+/-- … and the condition cannot be dropped (`stream_before_new_brotli_file_panics`): -/
+example : announcedFirst [.S [0xff, 0x07] 10, .N, .S [1, 2, 3, 4, 5] 10] = false := by decide
 
 /-- non-vacuity: a state in the middle of a header copy satisfies the hypotheses -/
 example : Inv { last_bytes := (5, 0), last_bytes_len := 1, last_byte_sanitized := true,
